@@ -23,7 +23,8 @@ TRUSTED = [
     'BEFORE/AFTER INSERT/UPDATE triggers interpreted from the generated trigger table with recursive_triggers off; foreign '
     'keys off (no PRAGMA in the code); python sqlite3 implicit transactions (close without commit = rollback)',
     'C15: the file system is abstracted to the set of key names that have a *.privkey file; a key pair is identified with its '
-    'key name (key ids are fresh random 8-byte components: collisions are not modelled); certificate contents are not modelled',
+    'key name (key ids are fresh random 8-byte components: collisions are not modelled; a key name generated AGAIN after its '
+    'key was deleted - explicit key_id - is a new key of the model, mapped by the harness); certificate contents are not modelled',
     'C15: a storage failure is an exception raised *before* a database write / commit / TPM call takes effect; crashes inside '
     'sqlite or inside a file write are below the model',
 ]
@@ -40,7 +41,16 @@ RULE = ('histories of 6..25 operations over 3 identity names: new/touch identity
         'deleted); 8% of histories reopen after every operation; 4% (thorough 10%) have 26..40 (..70) operations; the '
         'oracle judges "deleted" by what was asked, so an item or a default that disappears without a delete is reported; '
         'thorough tier: additionally one storage failure injected at a chosen database-write/commit/TPM call of one '
-        'operation which is then repeated, compared with the same history run without the failure. Non-trivial = at '
+        'operation which is then repeated, compared with the same history run without the failure; stream `reuse` (key '
+        'rotation that keeps the key id): a key made with an EXPLICIT key_id (k1 / k2, given as str / bytes / bytearray / '
+        'memoryview, the same ids under /i1 and /i1/i3; EC P-256 / P-384, RSA-1024 / -2048) is deleted (del_key, '
+        'Identity.del_key, del_identity) and a key is generated again under the SAME key name, with and without '
+        'close/reopen in between and afterwards, then signers are requested by every selector (also with a locator used '
+        'before the deletion) - the harness treats the re-created name as a NEW key (fresh model id; references to the '
+        'deleted generation are moved to it), every signature is verified first against the key bits the store holds NOW '
+        'for each key (then against remembered bits of deleted keys), and the self-signed certificate new_key makes '
+        'must verify under the stored bits; new_key with the key id of a LIVE key is kept out of the stream (it destroys '
+        'the live key\'s private key: reported finding). Non-trivial = at '
         'least two keys exist at some point and at least one delete or set-default or signer request succeeded')
 
 NIDS = 3
@@ -180,6 +190,7 @@ class _Mirror:
         self.keys = {}      # kid -> idn
         self.certs = {}     # (idn,kid,iss) -> owner kid
         self.next = 0
+        self.xid = {}       # kid -> explicit key-id label it was created with (live keys only)
 
     def newkey(self, i):
         k = self.next
@@ -187,6 +198,10 @@ class _Mirror:
         self.keys[k] = i
         self.certs[(i, k, 0)] = k
         return k
+
+    def xlive(self, i, lab):
+        """is a key with this explicit key id alive under identity i?"""
+        return any(self.keys.get(k) == i and l == lab for k, l in self.xid.items())
 
     def apply(self, op):
         c, a = op['c'], op['a']
@@ -197,8 +212,10 @@ class _Mirror:
                 self.ids.add(a[0])
                 self.newkey(a[0])
         elif c == 'nk':
-            if a[0] in self.ids and a[1] != 'x':
-                self.newkey(a[0])
+            if a[0] in self.ids and a[1] != 'x' and not (op.get('x') and self.xlive(a[0], op['x'][0])):
+                k = self.newkey(a[0])
+                if op.get('x'):
+                    self.xid[k] = op['x'][0]
         elif c == 'ic':
             k, ce = a
             if self.keys.get(k[1]) == k[0] and tuple(ce) not in self.certs:
@@ -216,6 +233,7 @@ class _Mirror:
 
     def delkey(self, k):
         del self.keys[k]
+        self.xid.pop(k, None)
         for ce in [ce for ce, o in self.certs.items() if o == k]:
             del self.certs[ce]
 
@@ -401,6 +419,8 @@ def cases(rng, tier):
         if reopen_each:
             ops = [x for o in ops for x in ((o, _op('ro')) if o.get('f') is None and o['c'] != 'ro' else (o,))][:60]
         yield {'ops': ops}
+    for _ in range(60 if tier == 'quick' else 600):
+        yield _reuse_case(rng, tier)
     # (the scenarios of finding F12 are fixed cases in corpus/C15/)
     if tier == 'thorough':
         # every operation kind failing at each of its fault points, followed by its repetition
@@ -410,6 +430,99 @@ def cases(rng, tier):
                   _op('dk', [1, 0]), _op('dk', [1, 2]), _op('dc', [1, 0, 0]), _op('gs', ['k', [1, 2]], None)]:
             for f in range(NFAULT[o['c']] + 2):
                 yield {'ops': base + [dict(o, f=f), dict(o, retry=True), _op('gs', ['i', 1], None), _op('ro')]}
+
+
+XLABELS = ['k1', 'k2']
+XFORMS = 'ssbam'       # key_id given as str / bytes / bytearray / memoryview of the encoded one-Component id
+
+
+def _xkey(rng, m, i, tier, lab=None):
+    """a new_key with an EXPLICIT key id (a label that is not alive under identity i), random type / size / form"""
+    free = [l for l in XLABELS if not m.xlive(i, l)]
+    if lab is None:
+        if not free:
+            return _op('nk', i, 'e')
+        lab = rng.choice(free)
+    q = rng.random()
+    o = _op('nk', i, 'e')
+    if q < 0.12:
+        o['sz'] = 384
+    elif q < (0.18 if tier == 'quick' else 0.30):      # RSA key generation is slow: 1024-bit keys, fewer in the quick tier
+        o = _op('nk', i, 'r')
+        o['sz'] = 1024 if (tier == 'quick' or rng.random() < 0.7) else 2048
+    o['x'] = [lab, rng.choice(XFORMS)]
+    return o
+
+
+def _reuse_case(rng, tier):
+    """key rotation that keeps the key id: a key created with an explicit key id is deleted (del_key, Identity.del_key,
+    del_identity) and a new key is generated under the SAME key name, with and without close/reopen in between, same or
+    other key type; signers are requested before and after by every selector (and with an explicit locator used before).
+    Identities 1 and 3 (/i1 and /i1/i3) get the same key ids.  The random tail keeps rotating."""
+    m = _Mirror()
+    ops = []
+
+    def add(*os_):
+        for o in os_:
+            ops.append(o)
+            m.apply(o)
+    i = rng.choice([1, 1, 2, 3, 3])
+    add(_op(rng.choice(['ti', 'ti', 'ni']), i))
+    if rng.random() < 0.5:
+        j = 3 if i == 1 else (1 if i == 3 else rng.choice([1, 3]))
+        add(_op('ti', j))
+        if rng.random() < 0.6:
+            add(_xkey(rng, m, j, tier, 'k1'))
+    for rnd in range(rng.choice([1, 1, 2, 3])):
+        lab = rng.choice(XLABELS) if rnd else 'k1'
+        if m.xlive(i, lab) or i not in m.ids:
+            break
+        add(_xkey(rng, m, i, tier, lab))
+        k = [i, m.next - 1]
+        loc = rng.choice([None, 1])
+        for _ in range(rng.randint(0, 2)):
+            add(_op('gs', rng.choice([['k', k], ['i', i], ['c', k + [0]], ['d']]), loc))
+        if rng.random() < 0.3:
+            add(_op('ic', k, k + [1]))
+            if rng.random() < 0.5:
+                add(_op('sdc', k, k + [1]))
+        if rng.random() < 0.2:
+            add(_op('ro'))
+        q = rng.random()
+        if q < 0.6:
+            add(dict(_op('dk', k), **({'v': 1} if rng.random() < 0.3 else {})))
+        elif q < 0.85:
+            add(_op('di', i), _op(rng.choice(['ti', 'ni']), i))
+        else:
+            add(_op('dk', k), _op('nk', i, 'e'))        # another key becomes the default in between
+        if rng.random() < 0.4:
+            add(_op('ro'))
+        add(_xkey(rng, m, i, tier, lab))
+        k2 = [i, m.next - 1]
+        if rng.random() < 0.35:
+            add(_op('ro'))
+        sels = [['k', k2], ['i', i], ['c', k2 + [0]], ['d'], ['x', i, k2, None, rng.choice(['', 'k', 'ik'])]]
+        rng.shuffle(sels)
+        for sel in sels[:rng.randint(1, 4)]:
+            add(_op('gs', sel, loc if rng.random() < 0.7 else rng.choice([None, 1, 2])))
+        if rng.random() < 0.3:
+            add(_op('ic', k2, k2 + [1]), _op('gs', ['c', k2 + [1]], None))
+    for _ in range(rng.randint(2, 10)):
+        q = rng.random()
+        ids = sorted(m.ids)
+        if q < 0.25 and ids:
+            add(_xkey(rng, m, rng.choice(ids), tier))
+        elif q < 0.45 and m.xid:
+            k = rng.choice(sorted(m.xid))
+            add(_op('dk', [m.keys[k], k]))
+        else:
+            for _try in range(20):
+                o = _gen_op(rng, m, 'quick')
+                if o['c'] == 'ic' and o['a'][0] != o['a'][1][:2]:
+                    continue          # certificates named after another key: kept out (a re-created key name would inherit them)
+                add(o)
+                break
+    return {'ops': ops}
 
 
 F12_CASES = [
@@ -502,6 +615,8 @@ class _Rig:
         self.cert_name = {}       # (idn,kid,iss) -> FormalName
         self.cert_data = {}
         self.next_kid = 0
+        self.successor = {}       # kid of a deleted key -> kid of the key generated later under the SAME key name
+        self.badself = []         # labels of keys whose self-signed certificate does not verify under the stored key bits
 
     def tick(self):
         if self.armed is not None:
@@ -565,9 +680,28 @@ class _Rig:
     def locname(self, n):
         return self.Name.from_str(f'/loc{n}')
 
+    def current(self, k):
+        idn, kid = k
+        while kid in self.successor and kid in self.key_name and self.key_name[kid][0] == idn:
+            kid = self.successor[kid]
+        return [idn, kid]
+
+    def xname_taken(self, idn, lab):
+        """is there a key, a private-key file or a certificate under the key name <identity idn>/KEY/<lab>?"""
+        nm = self.idname(idn) + [self.KEYC, self.Component.from_str(lab)]
+        kb = bytes(self.Name.to_bytes(nm))
+        if os.path.exists(os.path.join(self.tpmd, hashlib.sha256(kb).hexdigest() + '.privkey')):
+            return True
+        try:
+            return nm in self.kc[self.idname(idn)]
+        except Exception:
+            return False
+
     # ---- learning the names of freshly generated keys
     def learn(self, hint_idn=None):
         files = sorted(os.listdir(self.tpmd))
+        for f in [f for f in self.kid_of_file if f not in files]:
+            del self.kid_of_file[f]       # a private-key file that is gone: the same file name may come back as a NEW key
         for f in files:
             if f not in self.kid_of_file:
                 self.kid_of_file[f] = self.next_kid
@@ -578,10 +712,20 @@ class _Rig:
                 ident = self.kc[iname]
                 for kname in list(ident):
                     kb = bytes(self.Name.to_bytes(kname))
-                    if kb in self.key_label:
-                        continue
                     fn = hashlib.sha256(kb).hexdigest() + '.privkey'
                     kid = self.kid_of_file.get(fn)
+                    if kb in self.key_label:
+                        old = int(self.key_label[kb].split('.')[1])
+                        if kid is None or kid == old or kid in self.key_name or old not in self.key_name:
+                            continue
+                        # the key name of a deleted key has been generated again (explicit key id): a new key pair
+                        self.successor[old] = kid
+                        pre = _lab_key([self.key_name[old][0], old]) + '.'
+                        for cb in [cb for cb, l in self.cert_label.items() if l.startswith(pre)]:
+                            del self.cert_label[cb]
+                        for t in [t for t in self.cert_name if t[1] == old]:
+                            del self.cert_name[t]
+                            self.cert_data.pop(t, None)
                     if kid is None:
                         continue
                     idn = max(self.ilabel(kname[:-2]), 0)
@@ -595,6 +739,8 @@ class _Rig:
                                 self.cert_name[(idn, kid, 0)] = cname
                                 self.cert_label[bytes(self.Name.to_bytes(cname))] = _lab_cert([idn, kid, 0])
                                 self.cert_data[(idn, kid, 0)] = bytes(key[cname].data)
+                                if not self.verifies_data(bytes(key[cname].data), bytes(key.key_bits)):
+                                    self.badself.append(_lab_key([idn, kid]))
                     except KeyError:
                         pass
         except InjectedFault:
@@ -624,10 +770,17 @@ class _Rig:
             kc.touch_identity(self.idname(a[0]))
         elif c == 'nk':
             kt = {'e': 'ec', 'r': 'rsa', 'x': 'dsa'}[a[1]]
+            kw = {}
+            if op.get('sz'):
+                kw['key_size'] = op['sz']
+            if op.get('x'):
+                lab, form = op['x']
+                comp = self.Component.from_str(lab)
+                kw['key_id'] = {'s': lab, 'b': bytes(comp), 'a': bytearray(comp), 'm': memoryview(bytes(comp))}[form]
             if op.get('v'):
                 kc[self.idname(a[0])].new_key(kt)
             else:
-                kc.new_key(self.idname(a[0]), key_type=kt)
+                kc.new_key(self.idname(a[0]), key_type=kt, **kw)
         elif c == 'ic':
             cn = self.certname(a[1])
             data = self.cert_data.get(tuple(a[1]), b'\x06\x03cert' + _lab_cert(a[1]).encode())
@@ -698,12 +851,54 @@ class _Rig:
             raise AssertionError(c)
         return None
 
+    @staticmethod
+    def verifies(h, sv, bits):
+        from Cryptodome.PublicKey import ECC, RSA
+        from Cryptodome.Signature import DSS, pkcs1_15
+        try:
+            DSS.new(ECC.import_key(bits), 'fips-186-3', 'der').verify(h, sv)
+            return True
+        except Exception:
+            try:
+                pkcs1_15.new(RSA.import_key(bits)).verify(h, sv)
+                return True
+            except Exception:
+                return False
+
+    def verifies_data(self, wire, bits):
+        """does the signature of this Data packet verify under these public key bits?"""
+        from ndn.encoding import parse_data
+        from Cryptodome.Hash import SHA256
+        try:
+            _, _, _, sig = parse_data(wire)
+            h = SHA256.new()
+            for part in sig.signature_covered_part:
+                h.update(part)
+            return self.verifies(h, bytes(sig.signature_value_buf), bits)
+        except Exception:
+            return False
+
+    def stored_bits(self):
+        """[(label, key bits)] as the store holds them NOW (read through the public API)"""
+        out = []
+        try:
+            for iname in list(self.kc):
+                ident = self.kc[iname]
+                for kname in list(ident):
+                    try:
+                        out.append((self.klabel(kname), bytes(ident[kname].key_bits)))
+                    except KeyError:
+                        pass
+        except InjectedFault:
+            raise
+        except Exception:
+            pass
+        return out
+
     def probe_signer(self, signer):
         """sign a packet, find the stored public key that verifies it, read the key locator"""
         from ndn.encoding import make_data, MetaInfo, parse_data
         from Cryptodome.Hash import SHA256
-        from Cryptodome.PublicKey import ECC, RSA
-        from Cryptodome.Signature import DSS, pkcs1_15
         pkt = make_data(self.Name.from_str('/probe/data'), MetaInfo(), b'content', signer=signer)
         _, _, _, sig = parse_data(pkt)
         h = SHA256.new()
@@ -711,19 +906,14 @@ class _Rig:
             h.update(part)
         sv = bytes(sig.signature_value_buf)
         who = 'nobody'
-        for kid, bits in sorted(self.key_bits.items()):
-            ok = False
-            try:
-                DSS.new(ECC.import_key(bits), 'fips-186-3', 'der').verify(h, sv)
-                ok = True
-            except Exception:
-                try:
-                    pkcs1_15.new(RSA.import_key(bits)).verify(h, sv)
-                    ok = True
-                except Exception:
-                    pass
-            if ok:
-                who = _lab_key([self.key_name[kid][0], kid])
+        # first the key bits the store holds NOW for each of its keys, then what is remembered of keys that are gone
+        now = self.stored_bits()
+        live = set(l for l, _ in now)
+        cands = now + [(_lab_key([self.key_name[kid][0], kid]), bits) for kid, bits in sorted(self.key_bits.items())
+                       if kid in self.key_name and _lab_key([self.key_name[kid][0], kid]) not in live]
+        for lab, bits in cands:
+            if self.verifies(h, sv, bits):
+                who = lab
                 break
         kl = sig.signature_info.key_locator.name if sig.signature_info.key_locator is not None else None
         if kl is None:
@@ -737,6 +927,9 @@ class _Rig:
     # ---- observation through the public API
     def snapshot(self, uni_keys, uni_certs):
         kc = self.kc
+        # a deleted key whose NAME has been generated again cannot be probed for: its name means the new key
+        uni_keys = [k for k in uni_keys if self.current(k) == list(k)]
+        uni_certs = [c for c in uni_certs if self.current(c[:2]) == list(c[:2])]
         snap = {'len': len(kc), 'has_default': kc.has_default_identity(), 'ids': {}, 'probe': {}}
         try:
             snap['default'] = self.ilabel(kc.default_identity().name)
@@ -814,6 +1007,8 @@ class _Rig:
             else:
                 files.append(f'{self.idn_of_kid.get(kid)}.{kid}')
         snap['files'] = files
+        snap['badself'] = sorted(set(self.badself))
+        snap['recreated'] = len(self.successor)
         return snap
 
 
@@ -894,6 +1089,13 @@ def _run_history(ops):
             # a reference to a key id that has not been generated yet must never become a real key later:
             # move it out of the range of generated ids (the model gets the operation as executed)
             op = _map_refs(op, lambda k: [k[0], k[1] + 900] if rig.next_kid <= k[1] < 900 else list(k))
+            # a key NAME that was generated again after its key had been deleted (explicit key id) can only mean the key
+            # that holds it now: references to the deleted generation are moved to its successor
+            op = _map_refs(op, rig.current)
+            if op['c'] == 'nk' and op.get('x') and rig.xname_taken(op['a'][0], op['x'][0]):
+                # KEPT OUT of the generated stream (reported): new_key with the key id of a LIVE key is refused by the
+                # database only after the private-key file of the live key has been overwritten
+                op = {k: v for k, v in op.items() if k != 'x'}
             ks, cs = _refs(op)
             for k in ks:
                 if k not in uk:
@@ -1223,6 +1425,10 @@ def _oracle_trace(trace, check_reopen=True):
                     return f'op {n}: signer names a key locator other than the selected certificate / explicit locator'
             if who in deleted:
                 return f'op {n}: get_signer returned a signer for a deleted key'
+        # the signer new_key obtains for the key it has just generated (it self-signs the key's first certificate with it)
+        if snap.get('badself') and not faulted:
+            return (f'op {n}: the self-signed certificate new_key created is not signed with the private key of the new key '
+                    f'(it does not verify under the stored key bits)')
         # reopen
         if c == 'ro' and check_reopen and not faulted and prev is not None and rec['exc'] is None:
             if rec['dump'] != trace[n - 1]['dump']:
@@ -1272,6 +1478,10 @@ def tags(case, impl):
             t.append('rsa-key')
         if o.get('v'):
             t.append('via-view:' + o['c'])
+        if o['c'] == 'nk' and o.get('x'):
+            t.append('keyid-explicit:%s%s' % (o['x'][1], '' if r['exc'] else ':ok'))
+        if o['c'] == 'nk' and o.get('sz') and not r['exc']:
+            t.append('key-size:%s%d' % (o['a'][1], o['sz']))
         if o['c'] == 'gs' and o['a'][0][0] == 'x':
             n_args = sum(x is not None for x in o['a'][0][1:4])
             t.append('gs-args:%d%s%s' % (n_args, '+object' if o['a'][0][4] else '', '' if r['exc'] else ':ok'))
@@ -1279,6 +1489,17 @@ def tags(case, impl):
             t.append('ic-refused-under-other-key')
         if o['c'] in ('ti', 'ni', 'di') and o['a'][0] == 3:
             t.append('nested-identity:' + o['c'])
+    nre = impl['trace'][-1]['snap'].get('recreated', 0) if impl['trace'] else 0
+    if nre:
+        t.append('keyname-recreated:%d' % min(nre, 3))
+        ros = [i for i, r in enumerate(impl['trace']) if r['op']['c'] == 'ro']
+        seen = 0
+        for i, r in enumerate(impl['trace']):
+            if r['snap'].get('recreated', 0) > seen:
+                seen = r['snap']['recreated']
+                dels = [j for j in range(i) if impl['trace'][j]['op']['c'] in ('dk', 'di') and not impl['trace'][j]['exc']]
+                if dels and any(dels[-1] < x < i for x in ros):
+                    t.append('keyname-recreated:reopen-between')
     t.append('len:%d' % (len(case['ops']) // 5 * 5))
     return t
 
